@@ -111,6 +111,68 @@ theorem matchers_short_circuit (truth : Nat → Bool) (ms : List (Bool × Nat)) 
       simp
     · simp [h]
 
+/-! ### The executed chain is the configured rule list
+
+`Sequence.Exec` runs `execNext` on the chain that `NewSequence` built. With the
+regenerated facts about `buildChain` (one node appended per rule) and about the
+rest of the package (nothing rewrites a chain or a node afterwards) that chain
+is the rule list itself: same length, rule `i` at position `i`, so every rule's
+own matchers are evaluated when the walker reaches it. -/
+
+/-- The construction facts as regenerated from the source (defaults that make
+the theorems below unprovable when a fact could not be read). -/
+def genBuild : Build :=
+  { appendsPerRule := Gen.Facts.c06ChainAppendsPerRule.getD 0
+    rewrites := Gen.Facts.c06ChainRewrites.getD 1 }
+
+theorem flatMap_replicate_one (rules : List Rule) :
+    rules.flatMap (fun r => List.replicate 1 r) = rules := by
+  induction rules with
+  | nil => rfl
+  | cons r rs ih => simp [List.flatMap_cons, ih]
+
+/-- **One node per rule, none merged, dropped, duplicated or reordered**: the
+chain built by the current `NewSequence`/`buildChain` is exactly the configured
+rule list, whatever a (non-existent) later pass would do. -/
+theorem built_chain_is_rules (rewrite : List Rule → List Rule) (rules : List Rule) :
+    genBuild.chain rewrite rules = rules := by
+  simp only [Build.chain, genBuild, Gen.Facts.c06ChainAppendsPerRule, Gen.Facts.c06ChainRewrites,
+    Option.getD_some, if_true]
+  exact flatMap_replicate_one rules
+
+theorem built_chain_length (rewrite : List Rule → List Rule) (rules : List Rule) :
+    (genBuild.chain rewrite rules).length = rules.length := by
+  rw [built_chain_is_rules]
+
+/-- **C06 from the rule list**: executing the sequence built from `rules`
+(`Sequence.Exec`: a fresh walker on the built chain, no caller) is the
+continuation semantics of the property statement on `rules`. -/
+theorem sequence_exec_eq_run (sem : Sem St E) (rewrite : List Rule → List Rule) (rules : List Rule) (s : St) :
+    execNext sem (genBuild.chain rewrite rules) [] s = run sem rules .ok s := by
+  rw [built_chain_is_rules, exec_top]
+
+/-- Why the construction facts matter: a pass that folds a rule into the
+preceding one when both carry the same condition (so that the condition is
+looked at once for both actions) is *not* semantics preserving. State =
+(log, response present); matcher 0 = "a response is present"; action 1 answers
+the query, action 2 only logs, action 12 is "1 then 2" as the folded node would
+run them. Program: `!0 -> 1 ; !0 -> 2`. -/
+def respSem : Sem (List Nat × Bool) Unit where
+  matchFn m s := .ok (s.2, (s.1 ++ [m], s.2))
+  execFn a s := .ok (if a = 12 then (s.1 ++ [101, 102], true) else (s.1 ++ [100 + a], s.2 || a == 1))
+  wrapFn _ k s := k s
+  setResp _ s := (s.1, true)
+
+def twoRules : List Rule := [.mk [(true, 0)] (.plain 1), .mk [(true, 0)] (.plain 2)]
+def folded : List Rule → List Rule := fun _ => [.mk [(true, 0)] (.plain 12)]
+
+theorem folding_rules_changes_behaviour :
+    run respSem twoRules .ok ([], false) = .ok ([0, 101, 0], true) ∧
+    execNext respSem (Build.chain ⟨1, 1⟩ folded twoRules) [] ([], false) = .ok ([0, 101, 102], true) := by
+  constructor
+  · simp [run, evalMatchers, respSem, twoRules]
+  · simp [Build.chain, folded, exec_eq_run, run, denote, evalMatchers, respSem]
+
 /-! ### Guards over the regenerated facts -/
 theorem facts_guard :
     Gen.Facts.c06ExecNextDoesNotMutateWalker = some true ∧
@@ -122,7 +184,13 @@ theorem facts_guard :
     Gen.Facts.c06GotoDropsStack = some true ∧
     Gen.Facts.c06AcceptRejectReturnNil = some true ∧
     Gen.Facts.c06ReverseNegatesNonError = some true ∧
-    Gen.Facts.c06EPreferredOverRE = some true := by decide
+    Gen.Facts.c06EPreferredOverRE = some true ∧
+    Gen.Facts.c06BuildChainShape = some true ∧
+    Gen.Facts.c06ChainAppendsPerRule = some 1 ∧
+    Gen.Facts.c06ChainRewrites = some 0 ∧
+    Gen.Facts.c06NewNodeShape = some true ∧
+    Gen.Facts.c06NewSequenceShape = some true ∧
+    Gen.Facts.c06SequenceExecWalksWholeChain = some true := by decide
 
 /-! ### Non-vacuity: a program with jump, return, goto and a wrapper that runs
 its continuation twice; the log shows every clause at work. -/
